@@ -43,6 +43,7 @@ Tags(r, log) ==
  \cup (IF UnmountOrderTrue(u, log) THEN {}
        ELSE IF UnmountOrder(u) THEN {"UnmountOrderTrue/profile-is-not-in-mount-order"}
             ELSE {"UnmountOrderTrue"})
+ \cup (IF UnmountStrandsNothing(u, log) THEN {} ELSE {"UnmountOrder.entry-beneath-stays-kept"})
  \cup (IF MountOrder(u) THEN {} ELSE {"MountOrder"})
 
 \* how often the antecedents of the clauses were exercised by the real executions (vacuity guard)
